@@ -16,7 +16,7 @@ func init() {
 			"R2 the traversal engine walkMain pops from the end of the stack, pushes slice elements in descending index order with v.Index(i), descends only when Visit returned a non-nil visitor, and the Inspect/Preorder adapters stop exactly when the callback says so (checked on SSA value identities); " +
 			"R3 (shared with C05) field declaration order equals parse order in every production. " +
 			"Decides: the per-type traversal table and the shape of the 25-line engine. Does not decide: the dynamic theorem 'each node exactly once' beyond these shapes.",
-		Rules: []ruleFn{ruleC17R1, ruleC17R2, ruleC18R5},
+		Rules: []ruleFn{ruleC17R1, ruleC17R2, ruleC18R5, ruleC17R3},
 	})
 }
 
